@@ -15,7 +15,7 @@ Definition n_classes : nat := 6.
 Definition digit (n : nat) : string :=
   match n with 0 => "0" | 1 => "1" | 2 => "2" | 3 => "3" | 4 => "4" | _ => "5" end.
 Definition ep_name (k : cls) : string := "comp" ++ digit k.              (* entry point name *)
-Definition ref_name (k : cls) : string := "verifmods:Comp" ++ digit k.   (* module:attr reference *)
+Definition ref_name (k : cls) : string := "verifpkg.mods:Comp" ++ digit k.   (* module:attr reference *)
 Definition class_obj (k : cls) : tree := TList ("<class " ++ digit k ++ ">").  (* the class object itself *)
 
 Fixpoint find_cls (p : cls -> bool) (n : nat) : option cls :=
